@@ -613,6 +613,13 @@ func sharingOK(existing, new *key) error {
 }
 
 // poolCount returns the number of addresses in the pool.
+// newPrefix wraps ipaddr.NewPrefix, which rewrites the IP of the IPNet it is
+// given: the pools' CIDRs belong to the configuration and must stay as parsed.
+func newPrefix(cidr *net.IPNet) *ipaddr.Prefix {
+	c := *cidr
+	return ipaddr.NewPrefix(&c)
+}
+
 func poolCount(p *config.Pool) (int64, int64, int64) {
 	var total int64
 	var ipv4 int64
@@ -627,7 +634,7 @@ func poolCount(p *config.Pool) (int64, int64, int64) {
 		}
 		sz := int64(math.Pow(2, float64(b-o)))
 
-		cur := ipaddr.NewCursor([]ipaddr.Prefix{*ipaddr.NewPrefix(cidr)})
+		cur := ipaddr.NewCursor([]ipaddr.Prefix{*newPrefix(cidr)})
 		firstIP := cur.First().IP
 		lastIP := cur.Last().IP
 
@@ -706,7 +713,7 @@ func (a *Allocator) getIPFromCIDR(cidr *net.IPNet, avoidBuggyIPs bool, svc strin
 		sharing: sharingKey,
 		backend: backendKey,
 	}
-	c := ipaddr.NewCursor([]ipaddr.Prefix{*ipaddr.NewPrefix(cidr)})
+	c := ipaddr.NewCursor([]ipaddr.Prefix{*newPrefix(cidr)})
 	for pos := c.First(); pos != nil; pos = c.Next() {
 		if avoidBuggyIPs && ipConfusesBuggyFirmwares(pos.IP) {
 			continue
